@@ -47,6 +47,7 @@ let rec parse_block (toks : string list) (stop : string -> bool) : op list * str
             | [] -> failwith "unterminated handler")
          | [] -> failwith "unterminated try")
       | 'L' -> (OLock (num arg), rest)
+      | 'B' -> (OLock (num arg), rest)      (* lock() after a failed trylock(): a blocking acquisition *)
       | 'U' -> (OUnlock (num arg), rest)
       | 'T' -> (OTrySpin (num arg), rest)
       | 'W' ->
@@ -96,7 +97,7 @@ let () =
       match String.split_on_char '|' line with
       | nm :: sched :: progs ->
         (* a trailing g = the Thread objects are owned by the main thread's collector (nothing for the machine) *)
-        let nm = int_of_string (String.concat "" (String.split_on_char 's' (String.concat "" (String.split_on_char 'g' nm)))) in
+        let nm = int_of_string (String.concat "" (String.split_on_char 'n' (String.concat "" (String.split_on_char 's' (String.concat "" (String.split_on_char 'g' nm)))))) in
         let progs = List.map parse_prog progs in
         let n = List.length progs in
         let sched = List.map (fun s -> nat_of_int (int_of_string s)) (split_on ',' sched) in
